@@ -10,6 +10,7 @@ import (
 	"reflect"
 	"sort"
 	"strings"
+	"unicode/utf8"
 
 	"github.com/nspcc-dev/neo-go/pkg/io"
 )
@@ -78,10 +79,14 @@ func (c *codec) crossCheck(v any, bad func(oracle, detail string)) {
 	var outside func(err error) bool
 	canon, hash, noDeep := c.canonOf, c.hash, c.noDeep
 	switch {
-	case c.base != nil: // this is the JSON decoder: go through the binary form
-		name, enc, dec, outside = "binary", c.base.enc, c.base.dec, c.base.encMayFail
-		canon, noDeep = c.base.canonOf, c.base.noDeep
+	case c.base != nil:
+		// the JSON decoder fed with byte-level mutants: the JSON -> binary direction
+		// is explored by the structural mutants (phase F) and the limit family (phase E)
+		return
 	case c.jenc != nil && c.jdec != nil:
+		if hasInvalidUTF8(reflect.ValueOf(v), 0) {
+			return // JSON text is UTF-8 by definition: such a string is outside the domain of the form
+		}
 		name, enc, dec, outside = "json", c.jenc, c.jdec, isNoJSON
 	default:
 		return
@@ -514,4 +519,43 @@ func errClass(err error) string {
 		}
 	}
 	return short(b.String(), 60)
+}
+
+// hasInvalidUTF8 tells whether a value contains a Go string that is not valid UTF-8.
+func hasInvalidUTF8(v reflect.Value, depth int) bool {
+	if !v.IsValid() || depth > 64 {
+		return false
+	}
+	switch v.Kind() {
+	case reflect.String:
+		return !utf8.ValidString(v.String())
+	case reflect.Pointer, reflect.Interface:
+		if v.IsNil() {
+			return false
+		}
+		return hasInvalidUTF8(v.Elem(), depth+1)
+	case reflect.Struct:
+		for i := 0; i < v.NumField(); i++ {
+			if hasInvalidUTF8(v.Field(i), depth+1) {
+				return true
+			}
+		}
+	case reflect.Slice, reflect.Array:
+		if v.Type().Elem().Kind() == reflect.Uint8 {
+			return false
+		}
+		for i := 0; i < v.Len(); i++ {
+			if hasInvalidUTF8(v.Index(i), depth+1) {
+				return true
+			}
+		}
+	case reflect.Map:
+		it := v.MapRange()
+		for it.Next() {
+			if hasInvalidUTF8(it.Key(), depth+1) || hasInvalidUTF8(it.Value(), depth+1) {
+				return true
+			}
+		}
+	}
+	return false
 }
